@@ -78,6 +78,28 @@ def special_cases():
     return out
 
 
+def template_pkg_cases():
+    """configurations that themselves use the packages the templates import for their own purposes (context, reflect, errors,
+    fmt, os, strconv, the runtime's container package) — in positions that are emitted in normal mode only, next to getters whose
+    signatures need `context` in both modes"""
+    fx = {"imports": {"fx": gen.FX}, "pkg": "gen"}
+    cpkg = "github.com/gontainer/gontainer-helpers/v3/container"
+    out = []
+    for ctor, args in (("context.Background", []), ("reflect.TypeOf", [1]), ("errors.New", ["boom"]), ("fmt.Sprint", ["a", 1]), ("os.Getpid", []),
+                       ("strconv.Itoa", [5]), ('"%s".New' % cpkg, [])):
+        out.append({"meta": dict(fx), "services": {"u": {"constructor": ctor, "arguments": args}, "g": {"constructor": "fx.NewA", "type": "*fx.Obj", "getter": "GetG", "must_getter": True}}})
+    out.append({"meta": dict(fx, functions={"pid": "os.Getpid", "bg": "context.Background"}), "parameters": {"p": "%pid()%", "q": "x%bg()%"},
+                "services": {"g": {"constructor": "fx.NewA", "getter": "GetG"}, "v": {"value": "context.Canceled"}, "w": {"value": "os.Args"}}})
+    # arguments of a parameter function are verbatim Go code (docs/PARAMETERS.md): standard-library packages they name by their
+    # plain name are imported by the formatter
+    out.append({"meta": dict(fx), "parameters": {"tmp": '%env("VERIF_TMPDIR", os.TempDir())%', "max": '%envInt("VERIF_MAX", math.MaxInt16)%',
+                                                 "both": 'dir=%env("VERIF_TMPDIR", filepath.Join(os.TempDir(), "x"))%'},
+                "services": {"g": {"constructor": "fx.NewA", "arguments": ["%tmp%", "%max%"], "getter": "GetG"}}})
+    out.append({"meta": dict(fx), "services": {"c": {"constructor": "context.Background", "type": "context.Context", "getter": "Ctx", "must_getter": True},
+                                               "k": {"constructor": '"%s".New' % cpkg, "type": '*"%s".Container' % cpkg, "getter": "Inner"}}})
+    return out
+
+
 TEMPLATE_LOCALS = ["init", "rootGontainer", "interface_", "i0_container", "i1_context"]
 
 
@@ -112,7 +134,7 @@ def run(ctx, n=None):
     n = n or (40 if ctx.quick else 400)
     root = ctx.scratch()
     mod = levelb.Module(root)
-    cases = special_cases() + [gen.gen_config(ctx.rng) for _ in range(n)]
+    cases = special_cases() + template_pkg_cases() + [gen.gen_config(ctx.rng) for _ in range(n)]
     accepted = []
     violations, corr_fail = [], []
     dist = {"accepted": 0, "rejected": 0, "stub": 0, "explicit_scope": 0, "value_getter": 0, "main_pkg": 0, "multi_file": 0}
